@@ -279,6 +279,13 @@ def run(tier):
         'histories, seeds, threads and concurrent runs below, not by proof; the operating system is trusted to make open/write/close of '
         'different processes interleave as the model allows']
     pool = [(s, o) for s in VALID + INVALID for o in (OPTS if s in VALID[:8] else OPTS[:2])]
+    # every entry of the word tables the lexer builds its alternations from (media features / types, incl. names that are prefixes of others)
+    C.use_repo()
+    from lesscpy.lib import css as _css
+    for f in list(_css.media_features):
+        pool.append(('@media screen and (%s:2){.x{top:0}}' % f, OPTS[0]))
+    for t in list(_css.media_types):
+        pool.append(('@media %s{.x{top:0}}\n@import "a.css" %s;' % (t, t), OPTS[0]))
     # reference: each (source, options) alone in a fresh interpreter
     refs = C.pool().map(reference_job, pool, chunksize=1)
     ref = {}
@@ -329,6 +336,16 @@ def run(tier):
             break
     dist['histories'] = nh
     dist['threaded_histories'] = nt
+    # (a') the whole pool, once, under each of several hash seeds (a set-typed table changes its iteration order with the seed)
+    sweep_seeds = ['0', '1', '2', '3', '5', '8'] if tier == 'quick' else [str(k) for k in range(24)]
+    whole = [[s_, o_, 'stream'] for s_, o_ in pool]
+    sjobs = [(whole, {'PYTHONHASHSEED': sd}, 1, 'cold') for sd in sweep_seeds]
+    souts = C.pool().map(history_job, sjobs, chunksize=1)
+    for (h, env, threads, tab), out in zip(sjobs, souts):
+        if problems > 4:
+            break
+        judge('the whole pool in one process under hash seed %s' % env['PYTHONHASHSEED'], h, out, {'env': env, 'threads': 1, 'table_file': tab})
+    dist['hash_seed_sweeps'] = len(sweep_seeds)
     # (c) concurrent processes on a shared temporary directory
     warm = warm_table()
     cuts = [0, 1, 17, 100, len(warm) // 3, len(warm) // 2, len(warm) - 1] if tier == 'quick' else sorted(set([0, 1, 2, 17, 64, 100, 1000, len(warm) - 1] + [rng.randrange(len(warm)) for _ in range(40)]))
